@@ -12,6 +12,22 @@ package main
 //	                             resource). All such values share one address, so the container must not take the address of a
 //	                             component for its identity. Their calls/returns are counted per TYPE in package-level counters.
 //	                             observation as `close`
+//	closew <n> <errmask> <fastmask> <seed>
+//	                             n closer components that WAIT FOR EACH OTHER: a closer's Close() returns only when every one of
+//	                             the n closers has been entered (closers in fastmask return at once, but count as entered). A
+//	                             closer that has waited `closewGiveUp` (2 s) in vain gives up and returns. Every closer is slow
+//	                             exactly as long as some peer has not been invoked, so "a slow closer never prevents the others
+//	                             from being invoked" means: nobody has to give up.
+//	                             observation  calls=1,1,… done=1,1,… gaveup=<closers that gave up>
+//	cstart <hist> <nops> <sync> <trials> <r>x<m> <r>x<m> …
+//	                             CONCURRENT starts of different Apps in one process (always in a fresh child process, because
+//	                             app.Settings is process-global): first the app.Settings history `hist` (`1.1.1` = three calls
+//	                             with one option each, `-` = none; every option is a no-op, with sync=1 the last one is a
+//	                             rendezvous of the concurrently starting Apps with a 1 s give-up timer), then <trials> rounds: one
+//	                             fresh App per token `<r>x<m>` with its OWN r runners and m eager components, all started at the
+//	                             same moment, App i by Run(opts…) with nops = 1 | 2 | 3 separate options.
+//	                             observation (of the first deviating round, else of the last)
+//	                                st=<ok|err|panic|hang per App> runs=<invocations per runner, apps joined by /> early=<k> foreign=<k>
 //	scan <n> <failmask> <seed>   real start with n components and a user DefinitionRegistryPostProcessor that fails
 //	                             for the components in failmask, all at the same moment (barrier)
 //	                             observation  errs=<number of component names in Run's error> | race | hang | panic
@@ -44,6 +60,9 @@ package main
 //
 // Oracles (on the real code's own observation, independent of the model):
 //   close/closez: every counter = 1 and every completion flag set at return (close-not-all-once, close-hang)
+//   closew: as close, and no closer had to give up waiting for its peers to be invoked           (close-slow-blocks-others)
+//   cstart: per App, each of ITS runners was invoked exactly once per round (c13-conc-once), by the start of the App it is
+//          registered with (c13-conc-foreign), and not before every component of that App was initialised (c13-conc-after-ready)
 //   fstart: no race report, no hang/panic of the start                      (race, fstart-hang, fstart-panic)
 //   scan:  Run fails iff some scanner failed, and its error names exactly the failing components (scan-errs-lost), no race
 //   lofn:  not both callers loaded=false                                    (lofn-two-winners)
@@ -80,6 +99,7 @@ import (
 func init() {
 	register(&Sub{Name: "close", Gen: closeGen, Replay: concReplay, Corpus: closeCorpus})
 	register(&Sub{Name: "conc", Gen: concGen, Replay: concReplay, Corpus: concCorpus})
+	register(&Sub{Name: "cstart", Gen: cstartGen, Replay: concReplay, Corpus: cstartCorpus})
 	register(&Sub{Name: "concchild", Gen: func(*hx.Rng, int, string, *hx.Writer) {}, Replay: concChildReplay})
 }
 
@@ -370,11 +390,37 @@ func closeCorpus(w *hx.Writer) {
 	w.Put(runCloseZ(8, 0xFF, 0xFF, 7, 0)) // eight zero-size closers, all failing, no delays
 	w.Put(runCloseG(3, 2, 0, 8, 5, true))  // Close after a start that failed in a runner: the closers exist and are closed
 	w.Put(runCloseG(1, 0, 0, 9, 0, true))
+	w.Put(runCloseW(17, 0, 0, 10))              // one more closer than a pool of 16 would run at once; all wait for each other
+	w.Put(runCloseW(40, 0x8421084210, 0, 11))   // every 5th fails (after having waited)
+	w.Put(runCloseW(33, 1<<32, 0x0F0F0F0F, 12)) // the last one fails; 16 fast ones in between
+	w.Put(runCloseW(3, 2, 0, 13))
 }
 
 func closeGen(rng *hx.Rng, n int, tier string, w *hx.Writer) {
 	for i := 0; i < n; i++ {
 		r := rng.Fork()
+		if i%8 == 3 {
+			// every 8th case (the other cases draw exactly what they drew before this kind existed):
+			// closers that wait for each other: 17..48 of them (sometimes 1..16), all slow at the same moment
+			rw := r
+			nc := 17 + rw.Intn(32)
+			if rw.P(1, 5) {
+				nc = 1 + rw.Intn(16)
+			}
+			all := uint64(1)<<uint(nc) - 1
+			var mask, fast uint64
+			switch rw.Intn(3) {
+			case 1:
+				mask = all
+			case 2:
+				mask = rw.U64() & all
+			}
+			if rw.P(1, 3) {
+				fast = rw.U64() & rw.U64() & all // about a quarter of them return at once
+			}
+			w.Put(runCloseW(nc, mask, fast, rw.U64()%1000000))
+			continue
+		}
 		nc := r.Intn(17)
 		if r.P(1, 4) {
 			nc = 17 + r.Intn(46) // beyond any plausible worker-pool size
@@ -409,6 +455,481 @@ func closeGen(rng *hx.Rng, n int, tier string, w *hx.Writer) {
 			continue
 		}
 		w.Put(runCloseZ(nc, mask, zmask, sd, 30))
+	}
+}
+
+// ---------------------------------------------------------------- closew: closers that wait for each other
+
+// closewGiveUp: how long a closer waits for its peers to be invoked before it gives up. On a library that invokes every
+// closer concurrently nobody ever waits longer than it takes to schedule n goroutines; the timer only matters when the
+// library holds some closers back until others have returned. After two scenarios in which closers had to give up the
+// timer is shortened (the finding is already established; every further witness would cost seconds).
+var closewGiveUps int32
+
+func closewGiveUp() time.Duration {
+	if atomic.LoadInt32(&closewGiveUps) >= 2 {
+		return 150 * time.Millisecond
+	}
+	return 2 * time.Second
+}
+
+type closeMeet struct {
+	n       int32
+	entered int32 // closers whose Close has been entered (each counted once)
+	gate    chan struct{}
+	giveUp  time.Duration
+	minSeen int32 // smallest `entered` seen by a closer at the moment it gave up
+}
+
+type vWCloser struct {
+	N          string
+	fail, fast bool
+	meet       *closeMeet
+	calls      int32
+	done       int32
+	gaveUp     int32
+}
+
+func (c *vWCloser) Naming() string { return c.N }
+func (c *vWCloser) Close() error {
+	if atomic.AddInt32(&c.calls, 1) == 1 {
+		if atomic.AddInt32(&c.meet.entered, 1) == c.meet.n {
+			close(c.meet.gate) // the last one in releases everybody
+		}
+	}
+	if !c.fast {
+		t := time.NewTimer(c.meet.giveUp)
+		select {
+		case <-c.meet.gate:
+			t.Stop()
+		case <-t.C:
+			atomic.StoreInt32(&c.gaveUp, 1)
+			for {
+				e, m := atomic.LoadInt32(&c.meet.entered), atomic.LoadInt32(&c.meet.minSeen)
+				if e >= m || atomic.CompareAndSwapInt32(&c.meet.minSeen, m, e) {
+					break
+				}
+			}
+		}
+	}
+	atomic.StoreInt32(&c.done, 1)
+	if c.fail {
+		return errors.New("close failed")
+	}
+	return nil
+}
+
+// runCloseW: see the header (`closew`).
+func runCloseW(n int, mask, fastmask, seed uint64) hx.Case {
+	concQuiet()
+	scn := fmt.Sprintf("closew %d %d %d %d", n, mask, fastmask, seed)
+	if n < 0 || n > 62 {
+		return hx.Case{Scn: scn, Obs: "bad-line", Oracle: "FAIL bad-line"}
+	}
+	meet := &closeMeet{n: int32(n), gate: make(chan struct{}), giveUp: closewGiveUp(), minSeen: int32(n)}
+	closers := make([]*vWCloser, n)
+	comps := make([]any, 0, n)
+	nfail, nslow := 0, 0
+	for i := range closers {
+		closers[i] = &vWCloser{N: fmt.Sprintf("vw%03d", i), fail: bit(mask, i), fast: bit(fastmask, i), meet: meet}
+		comps = append(comps, closers[i])
+		if closers[i].fail {
+			nfail++
+		}
+		if !closers[i].fast {
+			nslow++
+		}
+	}
+	tags := []string{"close", "closers-wait-for-each-other", fmt.Sprintf("closers=%s", bucket(n)), fmt.Sprintf("failing=%s", bucket(nfail)),
+		fmt.Sprintf("slow-together=%s", bucket(nslow))}
+	if n < 2 {
+		tags = append(tags, "trivial")
+	}
+	a := app.NewApp()
+	var err error
+	if out := withWatchdog(20*time.Second, func() { err = a.Run(app.SetComponents(comps...), app.SetConfigLoader()) }); out != "" || err != nil {
+		return hx.Case{Scn: scn, Obs: "run-" + out + "-failed", Oracle: "FAIL close-run-failed " + fmt.Sprint(err), Tags: tags}
+	}
+	calls := make([]int32, n)
+	done := make([]int32, n)
+	out := withWatchdog(15*time.Second, func() {
+		a.Close()
+		for i, c := range closers { // sampled immediately after Close returned
+			calls[i] = atomic.LoadInt32(&c.calls)
+			done[i] = atomic.LoadInt32(&c.done)
+		}
+	})
+	if out != "" {
+		return hx.Case{Scn: scn, Obs: out, Oracle: "FAIL close-" + out + " App.Close did not return normally", Tags: tags}
+	}
+	var cs, ds []string
+	oracle := ""
+	gave := 0
+	for i, c := range closers {
+		cs = append(cs, strconv.Itoa(int(calls[i])))
+		ds = append(ds, strconv.Itoa(int(done[i])))
+		if (calls[i] != 1 || done[i] != 1) && oracle == "" {
+			oracle = fmt.Sprintf("FAIL close-not-all-once closer %d of %d: calls=%d returned=%d when App.Close returned", i, n, calls[i], done[i])
+		}
+		if atomic.LoadInt32(&c.gaveUp) != 0 {
+			gave++
+		}
+	}
+	if gave > 0 {
+		atomic.AddInt32(&closewGiveUps, 1)
+		if oracle == "" {
+			oracle = fmt.Sprintf("FAIL close-slow-blocks-others %d of %d closers were still inside Close() after %v and only %d of the %d closers had been invoked: "+
+				"the closers that had not returned kept the others from being invoked", gave, n, meet.giveUp, atomic.LoadInt32(&meet.minSeen), n)
+		}
+	}
+	return hx.Case{Scn: scn, Obs: "calls=" + strings.Join(cs, ",") + " done=" + strings.Join(ds, ",") + fmt.Sprintf(" gaveup=%d", gave), Oracle: oracle, Tags: tags}
+}
+
+// ---------------------------------------------------------------- cstart: concurrent starts of different Apps (C13)
+
+// csMeet is a reusable rendezvous with a give-up timer: a party that waits in vain continues after `giveUp`.
+type csMeet struct {
+	mu      sync.Mutex
+	n       int
+	waiting int
+	gate    chan struct{}
+	giveUp  time.Duration
+}
+
+func (m *csMeet) wait() {
+	m.mu.Lock()
+	gate := m.gate
+	m.waiting++
+	if m.waiting >= m.n {
+		m.waiting = 0
+		m.gate = make(chan struct{})
+		close(gate)
+	}
+	m.mu.Unlock()
+	t := time.NewTimer(m.giveUp)
+	defer t.Stop()
+	select {
+	case <-gate:
+	case <-t.C:
+	}
+}
+
+// reset forgets parties that gave up (between rounds)
+func (m *csMeet) reset() {
+	m.mu.Lock()
+	if m.waiting != 0 {
+		m.waiting = 0
+		m.gate = make(chan struct{})
+	}
+	m.mu.Unlock()
+}
+
+// csComp: an ordinary eager component with an Init method
+type csComp struct {
+	N     string
+	ready int32
+}
+
+func (c *csComp) Naming() string { return c.N }
+func (c *csComp) Init() error {
+	atomic.StoreInt32(&c.ready, 1)
+	return nil
+}
+
+// csRunner: an application runner that belongs to ONE App (`own`); the container wires the App it is registered with into A.
+type csRunner struct {
+	N       string
+	A       *app.App `wire:""`
+	own     *app.App
+	comps   []*csComp
+	runs    int32
+	early   int32
+	foreign int32
+}
+
+func (r *csRunner) Naming() string { return r.N }
+func (r *csRunner) Run() error {
+	atomic.AddInt32(&r.runs, 1)
+	for _, c := range r.comps {
+		if atomic.LoadInt32(&c.ready) == 0 {
+			atomic.AddInt32(&r.early, 1)
+			break
+		}
+	}
+	if r.A != r.own {
+		atomic.AddInt32(&r.foreign, 1)
+	}
+	return nil
+}
+
+const (
+	csMaxApps    = 8
+	csMaxRunners = 4
+	csMaxComps   = 6
+	csMaxOptions = 12
+)
+
+type csShape struct{ r, m int }
+
+func parseCstart(f []string) (hist []int, nops int, sync1 bool, trials int, shapes []csShape, ok bool) {
+	if len(f) < 6 || f[0] != "cstart" {
+		return
+	}
+	total := 0
+	if f[1] != "-" {
+		for _, t := range strings.Split(f[1], ".") {
+			k, err := strconv.Atoi(t)
+			if err != nil || k < 1 || strconv.Itoa(k) != t {
+				return
+			}
+			total += k
+			hist = append(hist, k)
+		}
+	}
+	var e1, e2 error
+	nops, e1 = strconv.Atoi(f[2])
+	trials, e2 = strconv.Atoi(f[4])
+	if e1 != nil || e2 != nil || nops < 1 || nops > 3 || trials < 1 || trials > 1000 || total > csMaxOptions || (f[3] != "0" && f[3] != "1") {
+		return
+	}
+	sync1 = f[3] == "1" && total > 0
+	if (f[3] == "1") != sync1 { // a rendezvous needs a Settings option to live in
+		return
+	}
+	for _, t := range f[5:] {
+		p := strings.Split(t, "x")
+		if len(p) != 2 {
+			return
+		}
+		r, err1 := strconv.Atoi(p[0])
+		m, err2 := strconv.Atoi(p[1])
+		if err1 != nil || err2 != nil || r < 1 || r > csMaxRunners || m < 0 || m > csMaxComps || fmt.Sprintf("%dx%d", r, m) != t {
+			return
+		}
+		shapes = append(shapes, csShape{r, m})
+	}
+	ok = len(shapes) >= 1 && len(shapes) <= csMaxApps
+	return
+}
+
+func runCstartLine(f []string) hx.Case {
+	hist, nops, sync1, trials, shapes, ok := parseCstart(f)
+	if !ok {
+		return hx.Case{Scn: strings.Join(f, " "), Obs: "bad-line", Oracle: "FAIL bad-line"}
+	}
+	return runCstart(strings.Join(f, " "), hist, nops, sync1, trials, shapes)
+}
+
+// csSettingsDone: app.Settings is process-global and only ever grows, so one process runs ONE cstart scenario with the
+// history it asks for (the generator and the replay put every cstart line into its own child process); a further line in
+// the same process would start from the history of the first and is refused.
+var csSettingsDone bool
+
+// runCstart: see the header (`cstart`).
+func runCstart(scn string, hist []int, nops int, sync1 bool, trials int, shapes []csShape) hx.Case {
+	concQuiet()
+	if csSettingsDone {
+		return hx.Case{Scn: scn, Obs: "second-cstart-in-one-process", Oracle: "FAIL bad-line a cstart scenario needs a fresh process"}
+	}
+	csSettingsDone = true
+	napps := len(shapes)
+	meet := &csMeet{n: napps, gate: make(chan struct{}), giveUp: time.Second}
+	total := 0
+	for ci, k := range hist {
+		ops := make([]app.SettingOption, k)
+		for j := range ops {
+			ops[j] = func(*app.App) {}
+			if sync1 && ci == len(hist)-1 && j == k-1 {
+				// lines the concurrently starting Apps up with each other; does nothing to the App
+				ops[j] = func(*app.App) { meet.wait() }
+			}
+		}
+		app.Settings(ops...)
+		total += k
+	}
+	nr := 0
+	for _, sh := range shapes {
+		nr += sh.r
+	}
+	tags := []string{"cstart", fmt.Sprintf("apps=%d", napps), fmt.Sprintf("settings-calls=%s", bucket(len(hist))), fmt.Sprintf("settings-options=%s", bucket(total)),
+		fmt.Sprintf("run-options=%d", nops), fmt.Sprintf("runners=%s", bucket(nr))}
+	if sync1 {
+		tags = append(tags, "rendezvous-in-settings")
+	}
+	if napps < 2 {
+		tags = append(tags, "trivial")
+	}
+	obs, oracle := "", ""
+	for trial := 0; trial < trials; trial++ {
+		meet.reset()
+		apps := make([]*app.App, napps)
+		runners := make([][]*csRunner, napps)
+		comps := make([][]*csComp, napps)
+		for i, sh := range shapes {
+			apps[i] = app.NewApp()
+			for j := 0; j < sh.m; j++ {
+				comps[i] = append(comps[i], &csComp{N: fmt.Sprintf("cs%dc%d", i, j)})
+			}
+			for j := 0; j < sh.r; j++ {
+				runners[i] = append(runners[i], &csRunner{N: fmt.Sprintf("cs%dr%d", i, j), own: apps[i], comps: comps[i]})
+			}
+		}
+		st := make([]string, napps)
+		var arrived int32
+		var wg sync.WaitGroup
+		for i := range apps {
+			wg.Add(1)
+			go func(i int) {
+				defer wg.Done()
+				var rs, cs []any
+				for _, r := range runners[i] {
+					rs = append(rs, r)
+				}
+				for _, c := range comps[i] {
+					cs = append(cs, c)
+				}
+				var ops []app.SettingOption
+				switch nops {
+				case 1:
+					ops = []app.SettingOption{app.Options(app.SetComponents(append(rs, cs...)...), app.SetConfigLoader())}
+				case 2:
+					ops = []app.SettingOption{app.SetComponents(append(rs, cs...)...), app.SetConfigLoader()}
+				default:
+					ops = []app.SettingOption{app.SetComponents(rs...), app.SetComponents(cs...), app.SetConfigLoader()}
+				}
+				// everybody spins until the last one has arrived, so that the Run calls begin together
+				atomic.AddInt32(&arrived, 1)
+				for spins := 0; atomic.LoadInt32(&arrived) < int32(napps); spins++ {
+					if spins > 300 {
+						runtime.Gosched()
+					}
+				}
+				var err error
+				if p := hx.Guard(func() { err = apps[i].Run(ops...) }); p != nil {
+					st[i] = "panic"
+				} else if err != nil {
+					st[i] = "err"
+				} else {
+					st[i] = "ok"
+				}
+			}(i)
+		}
+		all := make(chan struct{})
+		go func() { wg.Wait(); close(all) }()
+		hung := false
+		select {
+		case <-all:
+		case <-time.After(20 * time.Second):
+			hung = true
+		}
+		// the property, per App, on this round's own observations
+		var runsTok []string
+		early, foreign := 0, 0
+		verdict := ""
+		for i := range apps {
+			s := st[i]
+			if hung && s == "" {
+				st[i] = "hang"
+			}
+			var rt []string
+			for j, r := range runners[i] {
+				n := int(atomic.LoadInt32(&r.runs))
+				rt = append(rt, strconv.Itoa(n))
+				e, fo := int(atomic.LoadInt32(&r.early)), int(atomic.LoadInt32(&r.foreign))
+				early += e
+				foreign += fo
+				switch {
+				case verdict != "":
+				case n == 0 && st[i] != "ok":
+					// the start of this App did not succeed (no runner fails in this scenario, so that is not what C13 speaks
+					// about): left to the comparison with the model
+				case n != 1:
+					verdict = fmt.Sprintf("FAIL c13-conc-once round %d: runner %d of App %d (registered with that App only, whose Run returned %q) was invoked %d times in this round of %d concurrent starts, want exactly once",
+						trial, j, i, st[i], n, napps)
+				case fo != 0:
+					verdict = fmt.Sprintf("FAIL c13-conc-foreign round %d: runner %d of App %d was invoked by the start of an App it is not registered with", trial, j, i)
+				case e != 0:
+					verdict = fmt.Sprintf("FAIL c13-conc-after-ready round %d: runner %d of App %d ran before every component of App %d had been initialised", trial, j, i, i)
+				}
+			}
+			runsTok = append(runsTok, strings.Join(rt, "."))
+		}
+		obs = fmt.Sprintf("st=%s runs=%s early=%d foreign=%d", strings.Join(st, "."), strings.Join(runsTok, "/"), early, foreign)
+		if !hung {
+			for i := range apps {
+				if st[i] == "ok" {
+					a := apps[i]
+					withWatchdog(5*time.Second, func() { a.Close() })
+				}
+			}
+		}
+		clean := !hung && early == 0 && foreign == 0
+		for i := range apps {
+			clean = clean && st[i] == "ok"
+			for _, r := range runners[i] {
+				clean = clean && atomic.LoadInt32(&r.runs) == 1
+			}
+		}
+		if !clean {
+			oracle = verdict
+			break
+		}
+	}
+	return hx.Case{Scn: scn, Obs: obs, Oracle: oracle, Tags: tags}
+}
+
+var csHists = []string{"1.1.1", "1.1.1", "1.1.1", "1.1.1.1.1", "2.1", "4.1", "1.1.1.1.1.1", "1.1", "1", "3", "-", "1.2", "2.2.1", "1.1.1.1"}
+
+func genCstartLine(r *hx.Rng, tier string) string {
+	hist := csHists[r.Intn(len(csHists))]
+	if r.P(1, 6) { // any history of 1-5 calls with 1-3 options each
+		var hs []string
+		total := 0
+		for k := 1 + r.Intn(5); k > 0 && total < csMaxOptions-3; k-- {
+			c := 1 + r.Intn(3)
+			total += c
+			hs = append(hs, strconv.Itoa(c))
+		}
+		hist = strings.Join(hs, ".")
+	}
+	nops := 1
+	if r.P(1, 3) {
+		nops = 2 + r.Intn(2)
+	}
+	sync1 := 1
+	if hist == "-" || r.P(1, 5) {
+		sync1 = 0
+	}
+	napps := 2 + r.Intn(4)
+	trials := 3
+	if tier == "thorough" {
+		napps = 2 + r.Intn(csMaxApps-1)
+		trials = 6
+	}
+	if sync1 == 0 {
+		trials *= 5 // nothing lines the starts up: more rounds
+	}
+	line := fmt.Sprintf("cstart %s %d %d %d", hist, nops, sync1, trials)
+	for i := 0; i < napps; i++ {
+		rn := 1
+		if r.P(1, 3) {
+			rn = 1 + r.Intn(csMaxRunners)
+		}
+		line += fmt.Sprintf(" %dx%d", rn, r.Intn(csMaxComps+1))
+	}
+	return line
+}
+
+func cstartCorpus(w *hx.Writer) {
+	// three Settings calls of one option each, four Apps with one runner and one component each, Run with ONE option
+	runInChild([]string{"cstart 1.1.1 1 1 3 1x1 1x1 1x1 1x1"}, w)
+	runInChild([]string{"cstart 1.1.1.1.1 2 1 3 2x1 1x0 1x3"}, w)
+	runInChild([]string{"cstart - 2 0 10 1x1 1x1"}, w)
+}
+
+func cstartGen(rng *hx.Rng, n int, tier string, w *hx.Writer) {
+	for i := 0; i < n; i++ {
+		runInChild([]string{genCstartLine(rng.Fork(), tier)}, w)
 	}
 }
 
@@ -606,6 +1127,10 @@ func runLine(scn string, closeDelayMs int) hx.Case {
 		return runCloseG(int(num(1)), num(2), 0, num(3), closeDelayMs, true)
 	case len(f) == 5 && f[0] == "closez":
 		return runCloseZ(int(num(1)), num(2), num(3), num(4), closeDelayMs)
+	case len(f) == 5 && f[0] == "closew":
+		return runCloseW(int(num(1)), num(2), num(3), num(4))
+	case len(f) >= 6 && f[0] == "cstart":
+		return runCstartLine(f)
 	case len(f) == 4 && f[0] == "scan":
 		return runScan(int(num(1)), num(2), num(3))
 	case len(f) == 4 && f[0] == "fstart":
@@ -1572,7 +2097,7 @@ func concGen(rng *hx.Rng, n int, tier string, w *hx.Writer) {
 
 func concReplay(scn string, w *hx.Writer) {
 	f := strings.Fields(scn)
-	if len(f) > 0 && (f[0] == "scan" || f[0] == "fstart") && raceEnabled {
+	if len(f) > 0 && (((f[0] == "scan" || f[0] == "fstart") && raceEnabled) || f[0] == "cstart") {
 		runInChild([]string{scn}, w)
 		return
 	}
